@@ -223,7 +223,7 @@ def run(R):
               "stability by direct check, optimality for the simulated values by brute force (n<=6) and by a z3 dual certificate checked by the "
               "Lean smCertOk; simulated profiles compared with the Lean two-sided fill. Ambiguous = a value within 1e-9 of a float threshold.")
     R.assumptions = ["Irving is certified per output, not modelled", "thresholds are the exact rationals of float(n ** (l/(lambda+1)))"]
-    items = gen(R, 8 if R.thorough else 6, 3000 if R.thorough else 320)
+    items = gen(R, 8 if R.thorough else 6, 3000 if R.thorough else 600)
     items += gen_blocks(R, 200 if R.thorough else 16)
     run_items(R, items)
 
